@@ -6,6 +6,7 @@ import (
 	"encoding/json"
 	"fmt"
 	"io"
+	"net"
 	"os"
 	"path/filepath"
 	"strconv"
@@ -42,6 +43,10 @@ type c54Script struct {
 	UpCE     string // upstream Content-Encoding ("" = none)
 	UpCT     string
 	HeadOnly bool // request method is HEAD: no body bytes are written
+	// HoldAfter > 0: after that many bytes of the raw response the backend waits for Hold
+	// (or 3 s) before it writes the rest (used for clients that leave mid-body)
+	HoldAfter int
+	Hold      chan struct{}
 }
 
 type c54Backend struct {
@@ -152,6 +157,19 @@ func (b *c54Backend) handler(bc *sys.BackendConn) {
 		}
 		raw := s.raw()
 		prev := 0
+		if s.HoldAfter > 0 && s.HoldAfter < len(raw) {
+			bc.Conn.Write(raw[:s.HoldAfter])
+			select {
+			case <-s.Hold:
+			case <-time.After(3 * time.Second):
+			}
+			bc.Conn.SetWriteDeadline(time.Now().Add(2 * time.Second))
+			if _, err := bc.Conn.Write(raw[s.HoldAfter:]); err != nil {
+				return
+			}
+			bc.Conn.SetWriteDeadline(time.Time{})
+			continue
+		}
 		for _, sp := range s.Splits {
 			p := sp % (len(raw) + 1)
 			if p <= prev {
@@ -349,7 +367,75 @@ func c54Start(t *testing.T) *c54World {
 		t.Fatalf("rig start: %v", err)
 	}
 	w.rig = rig
+	// second data version: requests below /cancel/ go to cluster "cc", the same backend with the
+	// documented cluster option CancelOnClientClose = true (sys.DataConf has no field for it, so the
+	// generated cluster_conf.data is edited before it goes through the real reload entry points)
+	d2 := &sys.DataConf{
+		Version:  "v1",
+		Hosts:    data.Hosts,
+		HostTags: data.HostTags,
+		Rules: map[string][]sys.Rule{"pc": {{Cond: `req_path_prefix_in("/cancel/", false)`, Cluster: "cc"}, {Cond: "default_t()", Cluster: "c"}},
+			"p": {{Cond: "default_t()", Cluster: "c"}}},
+		Clusters: []sys.Cluster{sys.OneBackendCluster("c", b.Port), sys.OneBackendCluster("cc", b.Port)},
+	}
+	fs, err := rig.WriteVersion(d2)
+	if err != nil {
+		t.Fatalf("harness: %v", err)
+	}
+	var cconf map[string]any
+	bs, _ := os.ReadFile(fs["cluster_conf.data"])
+	if err := json.Unmarshal(bs, &cconf); err != nil {
+		t.Fatalf("harness: %v", err)
+	}
+	cconf["Config"].(map[string]any)["cc"].(map[string]any)["ClusterBasic"].(map[string]any)["CancelOnClientClose"] = true
+	bs, _ = json.MarshalIndent(cconf, "", " ")
+	if err := os.WriteFile(fs["cluster_conf.data"], bs, 0o644); err != nil {
+		t.Fatalf("harness: %v", err)
+	}
+	if err := rig.ReloadServerData(fs); err != nil {
+		t.Fatalf("harness: reload of server data with the cancel-on-client-close cluster: %v", err)
+	}
+	if err := rig.ReloadGslb(fs); err != nil {
+		t.Fatalf("harness: gslb reload: %v", err)
+	}
 	return w
+}
+
+// abort: a client asks for a compressed response through the CancelOnClientClose cluster and
+// disconnects in the middle of the body (the backend is holding the rest back at that moment).
+// Nothing is judged on this exchange; it only creates history for the responses that follow.
+func (w *c54World) abort(n int, body []byte) bool {
+	tgt := fmt.Sprintf("/cancel/x?n=%d", n)
+	sc := &c54Script{Status: 200, Body: body, Framing: "cl", UpCT: "text/plain", Hold: make(chan struct{})}
+	sc.HoldAfter = len(sc.raw()) - len(body)/2
+	w.be.set(tgt, sc)
+	defer w.be.del(tgt)
+	c, err := net.DialTimeout("tcp", w.rig.HTTPAddr, 10*time.Second)
+	if err != nil {
+		close(sc.Hold)
+		return false
+	}
+	fmt.Fprintf(c, "GET %s HTTP/1.1\r\nHost: c.example.org\r\nAccept-Encoding: gzip, br\r\n\r\n", tgt)
+	// wait for the header section and the first body bytes
+	var got []byte
+	buf := make([]byte, 4096)
+	c.SetReadDeadline(time.Now().Add(5 * time.Second))
+	for {
+		k, rerr := c.Read(buf)
+		got = append(got, buf[:k]...)
+		if i := bytes.Index(got, []byte("\r\n\r\n")); i >= 0 && len(got) > i+4+8 {
+			break
+		}
+		if rerr != nil {
+			break
+		}
+	}
+	midBody := bytes.Contains(got, []byte("\r\n\r\n"))
+	c.Close() // the client is gone
+	time.Sleep(30 * time.Millisecond)
+	close(sc.Hold)
+	time.Sleep(20 * time.Millisecond)
+	return midBody
 }
 
 func (w *c54World) load(rules []c54Rule) (string, error) {
@@ -403,14 +489,30 @@ func TestC54(t *testing.T) {
 	}
 	// burst: one response completed first, then the others concurrently under the same rule;
 	// exchanges run in goroutines, every response is judged afterwards in this goroutine
-	burst := func(tb ev.TB, cases []*c54Case) {
+	// With aborts > 0 the history is different: that many clients first leave in the middle of a
+	// compressed response served through the CancelOnClientClose cluster, then all cases run concurrently.
+	burst := func(tb ev.TB, cases []*c54Case, aborts int) {
 		ruleJSON, err := w.load(cases[0].Rules)
 		if err != nil {
 			tb.Fatalf("harness: mod_compress refused generated rule file %s: %v", ruleJSON, err)
 		}
-		n++
-		c54One(tb, rec, w, cases[0], n, &nComp, ruleJSON, nil, "burst-warmup")
-		rest := cases[1:]
+		rest := cases
+		hist := "concurrent"
+		if aborts > 0 {
+			hist = "concurrent-after-client-abort"
+			for a := 0; a < aborts; a++ {
+				n++
+				if w.abort(n, bytes.Repeat([]byte(fmt.Sprintf("aborted response %d ", n)), 400)) {
+					rec.Class("client-left-mid-body")
+				} else {
+					rec.Class("client-abort-missed-body")
+				}
+			}
+		} else {
+			n++
+			c54One(tb, rec, w, cases[0], n, &nComp, ruleJSON, nil, "burst-warmup")
+			rest = cases[1:]
+		}
 		ns := make([]int, len(rest))
 		res := make([]exch, len(rest))
 		tgts := make([]string, len(rest))
@@ -430,7 +532,7 @@ func TestC54(t *testing.T) {
 		wg.Wait()
 		for i, c := range rest {
 			w.be.del(tgts[i])
-			c54One(tb, rec, w, c, ns[i], &nComp, ruleJSON, &res[i], "concurrent")
+			c54One(tb, rec, w, c, ns[i], &nComp, ruleJSON, &res[i], hist)
 		}
 	}
 	mkBurst := func(rule c54Rule, k int, size func(i int) int, seed byte) []*c54Case {
@@ -451,7 +553,7 @@ func TestC54(t *testing.T) {
 	}
 	for round := 0; round < 2; round++ {
 		for _, rule := range []c54Rule{{Cond: "default_t()", Cmd: "GZIP", Quality: 5, FlushSize: 512}, {Cond: "default_t()", Cmd: "BROTLI", Quality: 4, FlushSize: 512}, {Cond: "default_t()", Cmd: "GZIP", Quality: -1, FlushSize: 4096}} {
-			burst(t, mkBurst(rule, 9, func(i int) int { return 8000 + 7000*i }, byte(round)))
+			burst(t, mkBurst(rule, 9, func(i int) int { return 8000 + 7000*i }, byte(round)), round*2)
 		}
 	}
 	// deterministic sweep: every Accept-Encoding spelling against both algorithms
@@ -469,7 +571,8 @@ func TestC54(t *testing.T) {
 			rule.Cond = "default_t()"
 			k := rapid.IntRange(3, 8).Draw(rt, "burst-clients")
 			sizes := rapid.SliceOfN(rapid.IntRange(0, 60000), k, k).Draw(rt, "burst-sizes")
-			burst(rt, mkBurst(rule, k, func(i int) int { return sizes[i] }, byte(rapid.IntRange(0, 255).Draw(rt, "burst-seed"))))
+			aborts := rapid.SampledFrom([]int{0, 1, 2, 3}).Draw(rt, "burst-aborts-first")
+			burst(rt, mkBurst(rule, k, func(i int) int { return sizes[i] }, byte(rapid.IntRange(0, 255).Draw(rt, "burst-seed"))), aborts)
 			return
 		}
 		c := &c54Case{}
@@ -744,6 +847,11 @@ func c54One(tb ev.TB, rec *ev.Rec, w *c54World, c *c54Case, n int, nComp *int, r
 	conc := ""
 	if pre != nil {
 		conc = "-under-concurrency" // discriminating feature: other compressed responses were in flight
+		for _, x := range extraCls {
+			if x == "concurrent-after-client-abort" {
+				conc = "-under-concurrency-after-client-abort" // ... and clients had left mid-body before
+			}
+		}
 	}
 	got, derr := c54Decompress(ce, m.Body)
 	if derr != nil {
